@@ -70,7 +70,10 @@ SocketServer::~SocketServer()
 	asl_verif_point(30, this);
 #endif
 	if(_thread) {
-		_thread->kill();
+		// the accept thread uses this object and its own Thread object until it has ended:
+		// make it leave its loop and wait for it (it was cancelled and freed while possibly still running)
+		_requestStop = true;
+		_thread->join();
 		delete _thread;
 	}
 }
